@@ -108,6 +108,8 @@ type Gen struct {
 	outerLookup  func(string, *State) (Val, bool)
 	freeVarNames map[string]bool         // names of captured variables of the closure being inlined
 	lookupPos    token.Pos // source position contract names are resolved at (scoping)
+	decEntryFn   string    // value of the function's own decreases measure at entry (recursion)
+	loopTermBases map[string][]func(*State) (string, bool) // written objects named by terms, per heap variable (loop being analysed)
 }
 
 type debugRef struct {
@@ -259,7 +261,9 @@ func (g *Gen) arrHeap(elem types.Type) string {
 
 func (g *Gen) mapHeaps(m *types.Map) (dom, val string) {
 	ks, vs := g.sortOf(m.Key()), g.sortOf(m.Elem())
-	id := sanitize(ks) + "." + sanitize(vs)
+	// one heap per Go map type (key and element types as written): maps of different types never alias,
+	// even when their elements share an SMT sort (pointers, maps and ints are all Int)
+	id := typeID(m.Key()) + "." + typeID(m.Elem())
 	dom, val = "Mdom."+id, "Mval."+id
 	g.heapDecl(dom, "(Array Int (Array "+ks+" Bool))")
 	g.heapDecl(val, "(Array Int (Array "+ks+" "+vs+"))")
@@ -278,6 +282,20 @@ func (g *Gen) subRef(t types.Type, i int, r string) string {
 	}
 	term := "(" + fn + " " + r + ")"
 	key := "subinst:" + term
+	if g.inQuant > 0 {
+		// the reference may mention bound variables: state the facts once, universally
+		if !g.declared["subax:"+fn] {
+			g.declared["subax:"+fn] = true
+			tag := 0
+			for i, s := range g.subTags {
+				if s == fn {
+					tag = i + 1
+				}
+			}
+			g.emit("(assert (forall ((r Int)) (! (and (< (%s r) 0) (= (own.%s (%s r)) r) (= (ref.tag (%s r)) %d) (= (ref.root (%s r)) (ref.root r))) :pattern ((%s r)))))", fn, fn, fn, fn, tag, fn, fn)
+		}
+		return term
+	}
 	if !g.declared[key] {
 		g.declared[key] = true
 		tag := 0
